@@ -20,7 +20,7 @@ Fixpoint nomicro (p : list instr) : bool :=
 Definition hook_ok (s : list instr) : Prop :=
   (rma LLive s = 0 -> nomicro s = true) /\
   match s with
-  | IStart :: r | IStop :: r => 1 <= rma LLive s /\ nomicro r = true
+  | IStart :: r | IStop :: r | IStopA _ :: r => 1 <= rma LLive s /\ nomicro r = true
   | _ => True
   end.
 Definition good2 (p : list instr) : Prop := forall s, suffix s p -> hook_ok s.
@@ -79,6 +79,29 @@ Proof.
   cbn [stop_rest refresh_seq print_seq check_seq app all_tails]. h2.
 Qed.
 
+Lemma g2_tick r : (forall l, 0 <= rma l r) -> hook_ok (ILoop :: r) -> good2 r -> good2 (tick_seq ++ r).
+Proof.
+  intros N [H1 _] G. cbn [rma nomicro] in H1. inst3 N.
+  apply good2_expand; auto. cbn [tick_seq app all_tails]. h2.
+Qed.
+Lemma g2_checkdone r : (forall l, 0 <= rma l r) -> hook_ok (ICheckDone :: r) -> good2 r -> good2 (refresh_seq ++ r).
+Proof.
+  intros N [H1 _] G. cbn [rma nomicro] in H1. inst3 N.
+  apply good2_expand; auto. cbn [refresh_seq print_seq check_seq app all_tails]. h2.
+Qed.
+Lemma g2_stopa rt r : (forall l, 0 <= rma l r) -> hook_ok (IStopA rt :: r) -> good2 r -> good2 (stopa_rest rt ++ r).
+Proof.
+  intros N [H1 [H2 H3]] G. cbn [rma nomicro lock_eqb] in *. inst3 N.
+  pose proof (good2_head _ G) as [Hr _].
+  apply good2_expand; auto.
+  cbn [stopa_rest refresh_seq print_seq check_seq app all_tails]. h2.
+Qed.
+Lemma g2_stopa_rel rt r : (forall l, 0 <= rma l r) -> hook_ok (IStopA rt :: r) -> good2 r -> good2 (IRel LLive :: r).
+Proof.
+  intros N [H1 [H2 H3]] G. cbn [rma nomicro lock_eqb] in *. inst3 N.
+  change (IRel LLive :: r) with ([IRel LLive] ++ r). apply good2_expand; auto. cbn [app all_tails]. h2.
+Qed.
+
 Lemma nomicro_app a b : nomicro (a ++ b) = nomicro a && nomicro b.
 Proof. induction a as [|x a IH]; cbn; auto. destruct x; auto. Qed.
 
@@ -105,20 +128,20 @@ Qed.
 (* ---- dynamic part: what the owner of the live lock will still do to (_started, #hooks) *)
 Fixpoint safe (p : list instr) (st : bool) (hk : nat) : bool :=
   match p with
-  | [] => implb st (1 <=? hk)%nat
+  | [] => Nat.eqb hk (if st then 1 else 0)%nat
   | IPopHook :: r => (1 <=? hk)%nat && safe r st (pred hk)
   | IPushHook :: r => safe r st (S hk)
   | ISetStarted b :: r => safe r b hk
-  | IStart :: _ | IStop :: _ => implb st (1 <=? hk)%nat
+  | IStart :: _ | IStop :: _ | IStopA _ :: _ => Nat.eqb hk (if st then 1 else 0)%nat
   | _ :: r => safe r st hk
   end.
 
-Lemma safe_nomicro p st hk : nomicro p = true -> safe p st hk = implb st (1 <=? hk)%nat.
+Lemma safe_nomicro p st hk : nomicro p = true -> safe p st hk = Nat.eqb hk (if st then 1 else 0)%nat.
 Proof. induction p as [|x p IH]; cbn; auto. destruct x; auto; discriminate. Qed.
 
 Definition HInv (st : state) : Prop :=
   match lkL (sh st) with
-  | None => implb (started (sh st)) (1 <=? hooks (sh st))%nat = true
+  | None => Nat.eqb (hooks (sh st)) (if started (sh st) then 1 else 0)%nat = true
   | Some (t, _) => safe (prog (th st t)) (started (sh st)) (hooks (sh st)) = true
   end.
 
@@ -166,11 +189,16 @@ Proof.
   pose proof (good2_head _ Gu) as [Hz Hm]. pose proof (good2_tail _ _ Gu) as Gr.
   assert (G2' : forall t, good2 (prog (th (mkSt s' (upd (th st) u ts')) t))).
   { intros t. cbn [th]. unfold upd. destruct (Nat.eqb t u); [|apply G2].
-    destruct (exec_prog_cases _ _ _ _ _ _ _ _ Ee) as [E|[[Hi E]|[[c [h [Hi E]]]|[[Hi E]|[Hi E]]]]]; rewrite E; subst; auto.
+    destruct (exec_prog_cases _ _ _ _ _ _ _ _ Ee)
+      as [[E _]|[[Hi E]|[[c [h [Hi E]]]|[[Hi E]|[[Hi E]|[[Hi E]|[[Hi E]|[[rt [Hi E]]|[rt [Hi E]]]]]]]]]]; rewrite E; subst; auto.
     - apply g2_flush; auto. apply (good2_head _ Gu).
     - apply g2_print_rest; auto. apply (good2_head _ Gu).
     - apply g2_start; auto. apply (good2_head _ Gu).
-    - apply g2_stop; auto. apply (good2_head _ Gu). }
+    - apply g2_stop; auto. apply (good2_head _ Gu).
+    - apply g2_tick; auto. apply (good2_head _ Gu).
+    - apply g2_checkdone; auto. apply (good2_head _ Gu).
+    - apply g2_stopa; auto. apply (good2_head _ Gu).
+    - apply (g2_stopa_rel rt); auto. apply (good2_head _ Gu). }
   split; auto.
   pose proof (Ic u LLive) as Ku. rewrite Ep in Ku.
   assert (Wself : upd (th st) u ts' u = ts') by (unfold upd; rewrite Nat.eqb_refl; reflexivity).
@@ -183,7 +211,7 @@ Proof.
     destruct (Nat.eqb t u) eqn:Etu.
     + apply Nat.eqb_eq in Etu. subst t. rewrite Ep in H.
       destruct i; cbn [exec] in Ee;
-        try (inversion Ee; subst; clear Ee; cbn [lkL set_shape set_rend started hooks prog set_prog set_depth set_pend set_buf set_olog];
+        try (inversion Ee; subst; clear Ee; cbn [lkL set_shape set_rend set_done set_fin started hooks prog set_prog set_depth set_pend set_buf set_olog];
              rewrite EL, Wself; cbn [prog set_prog set_depth set_pend set_buf set_olog]; exact H).
       * (* IAcq *) destruct (acquire (getl (sh st) l) u) as [v|] eqn:Ea; inversion Ee; subst; clear Ee.
         destruct l; cbn [setl lkL started hooks getl] in *.
@@ -216,18 +244,30 @@ Proof.
         destruct Hm as [_ Nm]. cbn [safe] in H.
         destruct (started (sh st)) eqn:Es; cbn [prog set_prog].
         -- rewrite (safe_nomicro _ _ _ Nm). exact H.
-        -- cbn [start_rest check_seq app safe]. rewrite (safe_nomicro _ _ _ Nm). reflexivity.
+        -- cbn [start_rest check_seq app safe]. rewrite (safe_nomicro _ _ _ Nm). apply Nat.eqb_eq in H. rewrite H. reflexivity.
       * (* IStop *) inversion Ee; subst; clear Ee. cbn [lkL started hooks]. rewrite EL, Wself.
         destruct Hm as [_ Nm]. cbn [safe] in H.
         destruct (started (sh st)) eqn:Es; cbn [prog set_prog].
         -- cbn [stop_rest refresh_seq print_seq check_seq app safe]. rewrite (safe_nomicro _ _ _ Nm).
-           cbn [implb] in *. rewrite H. reflexivity.
-        -- rewrite (safe_nomicro _ _ _ Nm). reflexivity.
+           apply Nat.eqb_eq in H. rewrite H. reflexivity.
+        -- rewrite (safe_nomicro _ _ _ Nm). exact H.
       * (* ISetStarted *) inversion Ee; subst; clear Ee. cbn [lkL set_started started hooks]. rewrite EL, Wself. exact H.
       * (* IPushHook *) inversion Ee; subst; clear Ee. cbn [lkL set_hooks started hooks]. rewrite EL, Wself. exact H.
       * (* IPopHook *) cbn [safe] in H. destruct (hooks (sh st)) as [|k] eqn:Eh; [discriminate|].
         inversion Ee; subst; clear Ee. cbn [lkL set_hooks started hooks]. rewrite EL, Wself.
         apply andb_prop in H. apply H.
+      * (* IJoin *) match type of Ee with context [existsb ?f ?l] => destruct (existsb f l) end; inversion Ee; subst; clear Ee.
+        cbn [lkL started hooks]. rewrite EL, Wself. exact H.
+      * (* ILoop *) destruct (done (sh st)); inversion Ee; subst; clear Ee;
+          cbn [lkL set_fin started hooks]; rewrite EL, Wself; cbn [prog set_prog tick_seq app safe]; exact H.
+      * (* ICheckDone *) inversion Ee; subst; clear Ee. cbn [lkL started hooks]. rewrite EL, Wself.
+        destruct (done (sh st)); cbn [prog set_prog refresh_seq print_seq check_seq app safe]; exact H.
+      * (* IStopA *) inversion Ee; subst; clear Ee. cbn [lkL started hooks]. rewrite EL, Wself.
+        destruct Hm as [_ Nm]. cbn [safe] in H.
+        destruct (started (sh st)) eqn:Es; cbn [prog set_prog app].
+        -- cbn [stopa_rest refresh_seq print_seq check_seq app safe]. rewrite (safe_nomicro _ _ _ Nm).
+           apply Nat.eqb_eq in H. rewrite H. reflexivity.
+        -- cbn [safe]. rewrite (safe_nomicro _ _ _ Nm). exact H.
     + (* another thread steps while t owns the live lock *)
       assert (Htu : t <> u) by (intro; subst; rewrite Nat.eqb_refl in Etu; discriminate).
       assert (Z0 : rma LLive (i :: r) = 0).
@@ -290,14 +330,12 @@ Proof.
   apply Nat.leb_le in H. exact H.
 Qed.
 
-(* deadlock freedom without the exception: whenever a thread is unfinished, some thread steps *)
-Theorem deadlock_free_full rep live sh0 r0 progs sched t0 :
+(* whenever the live lock is free: exactly one hook while started, none otherwise -- in particular
+   concurrent start() calls push exactly one hook (check-then-act inside one critical section) *)
+Theorem hooks_match_started rep live sh0 r0 progs sched :
   let st := run rep sched (init_state live sh0 r0 progs) in
-  prog (th st t0) <> [] -> exists t, step rep st t <> None.
+  lkL (sh st) = None -> hooks (sh st) = (if started (sh st) then 1 else 0)%nat.
 Proof.
-  intros st H0. assert (I2 : Inv2 st) by (apply run_inv2, init_inv2).
-  destruct (no_deadlock st t0 (j_inv _ I2) H0) as [t [Hp Hb]].
-  destruct (prog (th st t)) as [|i r] eqn:E; [congruence|].
-  exists t. destruct (not_blocked_steps rep st t i r (j_inv _ I2) E Hb) as [S|[Hi Hh]]; auto.
-  subst i. pose proof (pop_render_hook_safe st t r I2 E). lia.
+  intros st HL. destruct (run_inv2 rep sched _ (init_inv2 live sh0 r0 progs)) as [_ _ H].
+  fold st in H. unfold HInv in H. rewrite HL in H. apply Nat.eqb_eq in H. exact H.
 Qed.
